@@ -6,11 +6,20 @@ import YaegiVerif.Proofs.C09Inv
 namespace YaegiVerif.Proofs.C09
 open YaegiVerif.RunId
 
-/-- goroutine-local part of the post-cancellation invariant -/
+/-- goroutine-local part of the post-cancellation invariant: every frame is stale; a goroutine that has not made
+    its frame yet will get the (stale) id of the frame that started it; a blocked operation races the closed
+    channel; the operation in flight, if any, runs on a frame whose done channel is the closed one, and if it is a
+    call of a function value it is in the goroutine of `Execute` (which has not returned: the root id is stale),
+    if it is a `go` statement it is not of a function value -/
 structure DeadG (F : RunIdFacts) (cur : Nat) (g : G) : Prop where
   stale : ∀ fr ∈ g.stack, fr.id < cur
-  canc : g.canc F = true
+  pend : ∀ pd, g.pending = some pd → F.site pd.site = .parent ∧ pd.pid < cur
+  rel : ∀ k r, g.blocked = some (k, r) → r = true
   wf : g.blocked.isSome = true → g.armed = false
+  arm : g.armed = true → ∀ fr rest, g.stack = fr :: rest →
+    fr.cur = true ∧ fr.pc.canc F = true ∧
+    (∀ s b p, fr.pc = .call s b p → F.site s = .parent ∨ g.main = true) ∧
+    (∀ s b p, fr.pc = .spawn s b p → F.site s = .parent)
 
 /-- operations executed so far, plus the one operation that is in flight -/
 def pot (g : G) : Nat := g.ops + (if g.armed then 1 else 0)
@@ -20,37 +29,42 @@ def tpot (g : G) : Nat := g.ticks + (if g.armed then 1 else 0)
 theorem guard_stale {F : RunIdFacts} (hF : Sound F) {fid cur : Nat} (h : fid < cur) : guardOk F fid cur = false := by
   simp [guardOk, hF.guard]; omega
 
-/-- One transition of a goroutine whose frames are all stale, with `done` closed and nothing left in the run list
-    (or an `Execute` that checks for the cancellation): it stays dead, it is not armed afterwards, it executes at
-    most its in-flight operation, what it spawns is dead and has executed nothing, and its weight drops. -/
+/-- what `stepG_dead` says about one transition -/
+structure DeadOut (F : RunIdFacts) (σ : St) (g : G) (o : Out) : Prop where
+  dead : DeadG F σ.id o.g
+  unarmed : o.g.armed = false
+  pot : pot o.g ≤ pot g ∧ tpot o.g ≤ tpot g
+  spawned : ∀ s ∈ o.spawned, DeadG F σ.id s ∧ YaegiVerif.Proofs.C09.pot s = 0 ∧ tpot s = 0
+  list : σ.runList = [] → o.list = []
+  wle : o.g.weight + sumWeights o.spawned + 2 * o.list.length ≤ g.weight + 2 * σ.runList.length
+  wlt : g.active (!σ.runList.isEmpty) = true →
+    o.g.weight + sumWeights o.spawned + 2 * o.list.length < g.weight + 2 * σ.runList.length
+
+theorem deadG_unarmed {F : RunIdFacts} {cur : Nat} {g : G} (hs : ∀ fr ∈ g.stack, fr.id < cur)
+    (hp : ∀ pd, g.pending = some pd → F.site pd.site = .parent ∧ pd.pid < cur)
+    (hb : g.blocked = none) (ha : g.armed = false) : DeadG F cur g :=
+  ⟨hs, hp, (fun k r h => by rw [hb] at h; cases h), (fun _ => ha), (fun h => by rw [ha] at h; cases h)⟩
+
+/-- One transition of a goroutine whose frames are all stale, with `done` closed (and, for the goroutine of
+    `Execute`, a stale root id as long as it has not finished): it stays dead, it is not armed afterwards, it
+    executes at most its in-flight operation, what it spawns is dead and has executed nothing, and the measure drops. -/
 theorem stepG_dead {F : RunIdFacts} (hF : Sound F) (σ : St) (g : G) (hdone : σ.done = true)
-    (hlist : σ.runList = [] ∨ F.execChecksCancel = true) (h : DeadG F σ.id g) :
-    DeadG F σ.id (stepG F σ g).1 ∧
-    (stepG F σ g).1.armed = false ∧
-    (pot (stepG F σ g).1 ≤ pot g ∧ tpot (stepG F σ g).1 ≤ tpot g) ∧
-    (∀ s ∈ (stepG F σ g).2.1, DeadG F σ.id s ∧ pot s = 0 ∧ tpot s = 0) ∧
-    ((stepG F σ g).2.2 = [] ∨ (stepG F σ g).2.2 = σ.runList) ∧
-    (stepG F σ g).1.weight + sumWeights (stepG F σ g).2.1 ≤ g.weight ∧
-    (0 < g.weight → (stepG F σ g).1.weight + sumWeights (stepG F σ g).2.1 < g.weight) := by
-  obtain ⟨hst, hca, hwf⟩ := h
-  obtain ⟨stack, armed, blocked, ops, ticks, main⟩ := g
+    (hmain : g.main = true → σ.rootId < σ.id ∨ (σ.runList = [] ∧ finished g = true))
+    (h : DeadG F σ.id g) : DeadOut F σ g (stepG F σ g) := by
+  obtain ⟨hst, hpe, hrel, hwf, harm⟩ := h
+  obtain ⟨stack, armed, blocked, ops, ticks, main, pending⟩ := g
   cases blocked with
   | some kc =>
     obtain ⟨k, rel⟩ := kc
-    have harm : armed = false := by simpa using hwf
-    subst harm
-    have hrel : rel = true := by
-      simp only [G.canc, Bool.and_eq_true] at hca; exact hca.2
-    subst hrel
-    have hall : stack.all (fun fr => fr.pc.canc F && fr.cur) = true := by
-      simp only [G.canc, Bool.and_eq_true] at hca; exact hca.1
-    simp only [stepG, wake, hdone, Bool.and_self, if_true]
-    refine ⟨⟨?_, ?_, by simp⟩, (by first | rfl | trivial), by simp [pot, tpot], by simp, (by first | exact Or.inr rfl | exact Or.inr trivial | trivial), ?_, ?_⟩
-    · intro fr hfr; exact hst fr (List.mem_of_mem_tail hfr)
-    · simp only [G.canc, Bool.and_true]
-      cases stack with
-      | nil => rfl
-      | cons a t => simp only [List.tail_cons]; simp only [List.all_cons, Bool.and_eq_true] at hall; exact hall.2
+    have harmed : armed = false := by simpa using hwf
+    subst harmed
+    have hr : rel = true := hrel k rel rfl
+    subst hr
+    have key : stepG F σ { stack := stack, armed := false, blocked := some (k, true), ops := ops, ticks := ticks, main := main, pending := pending } =
+        ⟨{ stack := stack.tail, armed := false, blocked := none, ops := ops, ticks := ticks, main := main, pending := pending }, [], σ.runList, σ.rootCur⟩ := by
+      simp [stepG, wake, hdone]
+    rw [key]
+    refine ⟨deadG_unarmed (fun fr hfr => hst fr (List.mem_of_mem_tail hfr)) hpe rfl rfl, rfl, by simp [pot, tpot], by simp, fun h => h, ?_, ?_⟩
     · simp only [G.weight, sumWeights]
       cases stack <;> simp <;> omega
     · intro _
@@ -61,125 +75,202 @@ theorem stepG_dead {F : RunIdFacts} (hF : Sound F) (σ : St) (g : G) (hdone : σ
     | true =>
       cases stack with
       | nil =>
-        simp only [stepG, execOp]
-        refine ⟨⟨by simp, by simp [G.canc], by simp⟩, (by first | rfl | trivial), by simp [pot, tpot], by simp, (by first | exact Or.inr rfl | exact Or.inr trivial | trivial), ?_, ?_⟩
-        · simp [G.weight, sumWeights]
-        · intro _; simp [G.weight, sumWeights]
+        have key : stepG F σ { stack := [], armed := true, blocked := none, ops := ops, ticks := ticks, main := main, pending := pending } =
+            ⟨{ stack := [], armed := false, blocked := none, ops := ops, ticks := ticks, main := main, pending := pending }, [], σ.runList, σ.rootCur⟩ := by
+          simp [stepG, execOp]
+        rw [key]
+        refine ⟨deadG_unarmed (by simp) hpe rfl rfl, rfl, by simp [pot, tpot], by simp, fun h => h, ?_, ?_⟩
+        · simp [G.weight, sumWeights] <;> omega
+        · intro _; simp [G.weight, sumWeights] <;> omega
       | cons fr rest =>
         obtain ⟨fid, pc, fcur⟩ := fr
         have hfid : fid < σ.id := hst ⟨fid, pc, fcur⟩ (by simp)
         have hrest : ∀ x ∈ rest, x.id < σ.id := fun x hx => hst x (by simp [hx])
-        have hall : ((pc.canc F && fcur) && rest.all (fun fr => fr.pc.canc F && fr.cur)) = true := by
-          simpa [G.canc] using hca
-        simp only [Bool.and_eq_true] at hall
-        obtain ⟨⟨hpc, hfc⟩, hrc⟩ := hall
+        obtain ⟨hfc, hpc, hcall, hspawn⟩ := harm rfl ⟨fid, pc, fcur⟩ rest rfl
+        simp only at hfc hpc hcall hspawn
         subst hfc
+        have hcons : ∀ p : Prog, ∀ x ∈ (⟨fid, p, true⟩ :: rest : List Frame), x.id < σ.id := by
+          intro p x hx
+          simp only [List.mem_cons] at hx
+          rcases hx with rfl | hx
+          · exact hfid
+          · exact hrest x hx
         cases pc with
         | done =>
-          simp only [stepG, execOp]
-          refine ⟨⟨by simpa using hst, by simpa [G.canc] using hca, by simp⟩, (by first | rfl | trivial), by simp [pot, tpot], by simp, (by first | exact Or.inr rfl | exact Or.inr trivial | trivial), ?_, ?_⟩
-          · simp [G.weight, sumWeights]
-          · intro _; simp [G.weight, sumWeights]
+          have key : stepG F σ { stack := ⟨fid, .done, true⟩ :: rest, armed := true, blocked := none, ops := ops, ticks := ticks, main := main, pending := pending } =
+              ⟨{ stack := ⟨fid, .done, true⟩ :: rest, armed := false, blocked := none, ops := ops, ticks := ticks, main := main, pending := pending }, [], σ.runList, σ.rootCur⟩ := by
+            simp [stepG, execOp]
+          rw [key]
+          refine ⟨deadG_unarmed (hcons _) hpe rfl rfl, rfl, by simp [pot, tpot], by simp, fun h => h, ?_, ?_⟩
+          · simp [G.weight, sumWeights] <;> omega
+          · intro _; simp [G.weight, sumWeights] <;> omega
         | step p =>
-          simp only [stepG, execOp]
-          simp only [Prog.canc] at hpc
-          refine ⟨⟨?_, by simp [G.canc, hpc, hrc], by simp⟩, (by first | rfl | trivial), by simp [pot, tpot], by simp, (by first | exact Or.inr rfl | exact Or.inr trivial | trivial), ?_, ?_⟩
-          · intro x hx; simp at hx; rcases hx with rfl | hx; exact hfid; exact hrest x hx
-          · simp [G.weight, sumWeights]
-          · intro _; simp [G.weight, sumWeights]
+          have key : stepG F σ { stack := ⟨fid, .step p, true⟩ :: rest, armed := true, blocked := none, ops := ops, ticks := ticks, main := main, pending := pending } =
+              ⟨{ stack := ⟨fid, p, true⟩ :: rest, armed := false, blocked := none, ops := ops + 1, ticks := ticks, main := main, pending := pending }, [], σ.runList, σ.rootCur⟩ := by
+            simp [stepG, execOp]
+          rw [key]
+          refine ⟨deadG_unarmed (hcons _) hpe rfl rfl, rfl, by simp [pot, tpot], by simp, fun h => h, ?_, ?_⟩
+          · simp [G.weight, sumWeights] <;> omega
+          · intro _; simp [G.weight, sumWeights] <;> omega
         | tick p =>
-          simp only [stepG, execOp]
-          simp only [Prog.canc] at hpc
-          refine ⟨⟨?_, by simp [G.canc, hpc, hrc], by simp⟩, (by first | rfl | trivial), by simp [pot, tpot], by simp, (by first | exact Or.inr rfl | exact Or.inr trivial | trivial), ?_, ?_⟩
-          · intro x hx; simp at hx; rcases hx with rfl | hx; exact hfid; exact hrest x hx
-          · simp [G.weight, sumWeights]
-          · intro _; simp [G.weight, sumWeights]
+          have key : stepG F σ { stack := ⟨fid, .tick p, true⟩ :: rest, armed := true, blocked := none, ops := ops, ticks := ticks, main := main, pending := pending } =
+              ⟨{ stack := ⟨fid, p, true⟩ :: rest, armed := false, blocked := none, ops := ops + 1, ticks := ticks + 1, main := main, pending := pending }, [], σ.runList, σ.rootCur⟩ := by
+            simp [stepG, execOp]
+          rw [key]
+          refine ⟨deadG_unarmed (hcons _) hpe rfl rfl, rfl, by simp [pot, tpot], by simp, fun h => h, ?_, ?_⟩
+          · simp [G.weight, sumWeights] <;> omega
+          · intro _; simp [G.weight, sumWeights] <;> omega
         | mkclosure p =>
-          simp only [stepG, execOp]
-          simp only [Prog.canc] at hpc
-          refine ⟨⟨?_, by simp [G.canc, hpc, hrc], by simp⟩, (by first | rfl | trivial), by simp [pot, tpot], by simp, (by first | exact Or.inr rfl | exact Or.inr trivial | trivial), ?_, ?_⟩
-          · intro x hx; simp at hx; rcases hx with rfl | hx; exact hfid; exact hrest x hx
-          · simp [G.weight, sumWeights]
-          · intro _; simp [G.weight, sumWeights]
+          have key : stepG F σ { stack := ⟨fid, .mkclosure p, true⟩ :: rest, armed := true, blocked := none, ops := ops, ticks := ticks, main := main, pending := pending } =
+              ⟨{ stack := ⟨fid, p, true⟩ :: rest, armed := false, blocked := none, ops := ops + 1, ticks := ticks, main := main, pending := pending }, [], σ.runList, σ.rootCur⟩ := by
+            simp [stepG, execOp]
+          rw [key]
+          refine ⟨deadG_unarmed (hcons _) hpe rfl rfl, rfl, by simp [pot, tpot], by simp, fun h => h, ?_, ?_⟩
+          · simp [G.weight, sumWeights] <;> omega
+          · intro _; simp [G.weight, sumWeights] <;> omega
         | call s body p =>
-          simp only [stepG, execOp]
-          simp only [Prog.canc, Bool.and_eq_true] at hpc
-          refine ⟨⟨?_, by simp [G.canc, hpc.1.1, hpc.1.2, hpc.2, hrc], by simp⟩, (by first | rfl | trivial), by simp [pot, tpot], by simp, (by first | exact Or.inr rfl | exact Or.inr trivial | trivial), ?_, ?_⟩
-          · intro x hx; simp at hx
-            rcases hx with rfl | rfl | hx
-            · simpa [hF.site, newId] using hfid
-            · exact hfid
-            · exact hrest x hx
+          have key : stepG F σ { stack := ⟨fid, .call s body p, true⟩ :: rest, armed := true, blocked := none, ops := ops, ticks := ticks, main := main, pending := pending } =
+              ⟨{ stack := ⟨newId (F.site s) fid σ.id σ.rootId, body, childCur F s true σ.rootCur⟩ :: ⟨fid, p, true⟩ :: rest,
+                 armed := false, blocked := none, ops := ops + 1, ticks := ticks, main := main, pending := pending }, [], σ.runList, σ.rootCur⟩ := by
+            simp [stepG, execOp]
+          rw [key]
+          have hnew : newId (F.site s) fid σ.id σ.rootId < σ.id := by
+            rcases hF.site s with hs | hs
+            · simpa [hs, newId] using hfid
+            · rcases hcall s body p rfl with hp | hm
+              · rw [hp] at hs; cases hs
+              · rcases hmain hm with hr | hr
+                · simpa [hs, newId] using hr
+                · have := hr.2; simp [finished] at this
+          refine ⟨deadG_unarmed ?_ hpe rfl rfl, rfl, by simp [pot, tpot], by simp, fun h => h, ?_, ?_⟩
+          · intro x hx
+            simp only [List.mem_cons] at hx
+            rcases hx with rfl | hx
+            · exact hnew
+            · exact hcons p x (by simpa using hx)
           · simp [G.weight, sumWeights] <;> omega
-          · intro _; simp [G.weight, sumWeights]
+          · intro _; simp [G.weight, sumWeights] <;> omega
         | spawn ss body p =>
-          simp only [stepG, execOp]
-          simp only [Prog.canc, Bool.and_eq_true] at hpc
-          refine ⟨⟨?_, by simp [G.canc, hpc.2, hrc], by simp⟩, (by first | rfl | trivial), by simp [pot, tpot], ?_, (by first | exact Or.inr rfl | exact Or.inr trivial | trivial), ?_, ?_⟩
-          · intro x hx; simp at hx; rcases hx with rfl | hx; exact hfid; exact hrest x hx
-          · intro s hs
-            simp at hs
-            subst hs
-            refine ⟨⟨?_, by simp [newG, G.canc, hpc.1.1, hpc.1.2], by simp [newG]⟩, by simp [newG, pot, tpot]⟩
-            intro x hx
-            simp [newG] at hx
+          have key : stepG F σ { stack := ⟨fid, .spawn ss body p, true⟩ :: rest, armed := true, blocked := none, ops := ops, ticks := ticks, main := main, pending := pending } =
+              ⟨{ stack := ⟨fid, p, true⟩ :: rest, armed := false, blocked := none, ops := ops + 1, ticks := ticks, main := main, pending := pending },
+               [newG ⟨ss, fid, true, body⟩], σ.runList, σ.rootCur⟩ := by
+            simp [stepG, execOp]
+          rw [key]
+          refine ⟨deadG_unarmed (hcons _) hpe rfl rfl, rfl, by simp [pot, tpot], ?_, fun h => h, ?_, ?_⟩
+          · intro x hx
+            simp only [List.mem_cons, List.not_mem_nil, or_false] at hx
             subst hx
-            simpa [hF.site, newId] using hfid
+            refine ⟨deadG_unarmed (by simp [newG]) ?_ rfl rfl, by simp [newG, pot], by simp [newG, tpot]⟩
+            intro pd hpd
+            simp only [newG, Option.some.injEq] at hpd
+            subst hpd
+            exact ⟨hspawn ss body p rfl, hfid⟩
           · simp [G.weight, sumWeights, newG] <;> omega
-          · intro _; simp [G.weight, sumWeights, newG]
+          · intro _; simp [G.weight, sumWeights, newG] <;> omega
         | block k c p =>
-          simp only [stepG, execOp]
-          simp only [Prog.canc, Bool.and_eq_true] at hpc
-          refine ⟨⟨?_, by simp [G.canc, hpc.1, hpc.2, hrc], by simp⟩, (by first | rfl | trivial), by simp [pot, tpot], by simp, (by first | exact Or.inr rfl | exact Or.inr trivial | trivial), ?_, ?_⟩
-          · intro x hx; simp at hx; rcases hx with rfl | hx; exact hfid; exact hrest x hx
+          have hcc : cancellable F k c = true := by
+            simp only [Prog.canc, Bool.and_eq_true] at hpc; exact hpc.1
+          have key : stepG F σ { stack := ⟨fid, .block k c p, true⟩ :: rest, armed := true, blocked := none, ops := ops, ticks := ticks, main := main, pending := pending } =
+              ⟨{ stack := ⟨fid, p, true⟩ :: rest, armed := false, blocked := some (k, true), ops := ops + 1, ticks := ticks, main := main, pending := pending }, [], σ.runList, σ.rootCur⟩ := by
+            simp [stepG, execOp, hcc]
+          rw [key]
+          refine ⟨⟨hcons _, hpe, ?_, fun _ => rfl, fun h => by cases h⟩, rfl, by simp [pot, tpot], by simp, fun h => h, ?_, ?_⟩
+          · intro k' r hkr
+            simp only [Option.some.injEq, Prod.mk.injEq] at hkr
+            exact hkr.2.symm
           · simp [G.weight, sumWeights] <;> omega
-          · intro _; simp [G.weight, sumWeights]
+          · intro _; simp [G.weight, sumWeights] <;> omega
     | false =>
-      cases stack with
-      | nil =>
-        cases main with
-        | false =>
-          simp only [stepG, advance]
-          exact ⟨⟨by simp, by simp [G.canc], by simp⟩, rfl, by simp [pot, tpot], by simp, (by first | exact Or.inr rfl | exact Or.inr trivial | trivial),
-            by simp [G.weight, sumWeights], by simp [G.weight]⟩
-        | true =>
-          cases hl : σ.runList with
-          | nil =>
-            simp only [stepG, advance, hl]
-            exact ⟨⟨by simp, by simp [G.canc], by simp⟩, rfl, by simp [pot, tpot], by simp, (by first | exact Or.inl rfl | exact Or.inl trivial | trivial),
-              by simp [G.weight, sumWeights], by simp [G.weight]⟩
-          | cons e es =>
-            have hx : F.execChecksCancel = true := by
-              rcases hlist with h | h
-              · rw [hl] at h; cases h
-              · exact h
-            simp only [stepG, advance, hl, hx, hdone, Bool.and_self, if_true]
-            exact ⟨⟨by simp, by simp [G.canc], by simp⟩, rfl, by simp [pot, tpot], by simp, (by first | exact Or.inl rfl | exact Or.inl trivial | trivial),
-              by simp [G.weight, sumWeights], by simp [G.weight]⟩
-      | cons fr rest =>
-        obtain ⟨fid, pc, fcur⟩ := fr
-        have hfid : fid < σ.id := hst ⟨fid, pc, fcur⟩ (by simp)
-        have hrest : ∀ x ∈ rest, x.id < σ.id := fun x hx => hst x (by simp [hx])
-        have hall : ((pc.canc F && fcur) && rest.all (fun fr => fr.pc.canc F && fr.cur)) = true := by
-          simpa [G.canc] using hca
-        simp only [Bool.and_eq_true] at hall
-        have hg := guard_stale hF hfid
-        have key : (advance F σ { stack := ⟨fid, pc, fcur⟩ :: rest, armed := false, blocked := none, ops := ops, ticks := ticks, main := main }) =
-            ({ stack := rest, armed := false, blocked := none, ops := ops, ticks := ticks, main := main }, σ.runList) := by
-          cases pc <;> simp [advance, hg]
-        simp only [stepG, key]
-        refine ⟨⟨hrest, by simp [G.canc, hall.2], by simp⟩, rfl, by simp [pot, tpot], by simp, (by first | exact Or.inr rfl | exact Or.inr trivial | trivial), ?_, ?_⟩
-        · simp [G.weight, sumWeights]
-        · intro _; simp [G.weight, sumWeights]
+      cases pending with
+      | some pd =>
+        obtain ⟨hsite, hpid⟩ := hpe pd rfl
+        have key : stepG F σ { stack := stack, armed := false, blocked := none, ops := ops, ticks := ticks, main := main, pending := some pd } =
+            ⟨{ stack := [⟨pd.pid, pd.body, childCur F pd.site pd.pcur σ.rootCur⟩], armed := false, blocked := none, ops := ops, ticks := ticks, main := main, pending := none },
+             [], σ.runList, σ.rootCur⟩ := by
+          simp [stepG, advance, hsite, newId]
+        rw [key]
+        refine ⟨deadG_unarmed ?_ (fun pd' h => by cases h) rfl rfl, rfl, by simp [pot, tpot], by simp, fun h => h, ?_, ?_⟩
+        · intro x hx
+          simp only [List.mem_cons, List.not_mem_nil, or_false] at hx
+          subst hx
+          exact hpid
+        · simp [G.weight, sumWeights] <;> omega
+        · intro _; simp [G.weight, sumWeights] <;> omega
+      | none =>
+        cases stack with
+        | nil =>
+          cases main with
+          | false =>
+            have key : stepG F σ { stack := [], armed := false, blocked := none, ops := ops, ticks := ticks, main := false, pending := none } =
+                ⟨{ stack := [], armed := false, blocked := none, ops := ops, ticks := ticks, main := false, pending := none }, [], σ.runList, σ.rootCur⟩ := by
+              simp [stepG, advance]
+            rw [key]
+            exact ⟨deadG_unarmed (by simp) (fun pd' h => by cases h) rfl rfl, rfl, by simp [pot, tpot], by simp, fun h => h,
+              by simp [G.weight, sumWeights], by simp [G.active, G.weight]⟩
+          | true =>
+            cases hl : σ.runList with
+            | nil =>
+              have key : stepG F σ { stack := [], armed := false, blocked := none, ops := ops, ticks := ticks, main := true, pending := none } =
+                  ⟨{ stack := [], armed := false, blocked := none, ops := ops, ticks := ticks, main := true, pending := none }, [], [], σ.rootCur⟩ := by
+                simp [stepG, advance, hl]
+              rw [key]
+              exact ⟨deadG_unarmed (by simp) (fun pd' h => by cases h) rfl rfl, rfl, by simp [pot, tpot], by simp, fun _ => rfl,
+                by simp [G.weight, sumWeights, hl], by simp [G.active, G.weight, hl]⟩
+            | cons e es =>
+              have hroot : σ.rootId < σ.id := by
+                rcases hmain rfl with hr | hr
+                · exact hr
+                · rw [hl] at hr; cases hr.1
+              by_cases hx : (F.execChecksCancel && σ.done) = true
+              · have key : stepG F σ { stack := [], armed := false, blocked := none, ops := ops, ticks := ticks, main := true, pending := none } =
+                    ⟨{ stack := [], armed := false, blocked := none, ops := ops, ticks := ticks, main := true, pending := none }, [], [], σ.rootCur⟩ := by
+                  simp [stepG, advance, hl, hx]
+                rw [key]
+                exact ⟨deadG_unarmed (by simp) (fun pd' h => by cases h) rfl rfl, rfl, by simp [pot, tpot], by simp, fun _ => rfl,
+                  by simp [G.weight, sumWeights], by simp [G.weight, sumWeights, hl]⟩
+              · have key : stepG F σ { stack := [], armed := false, blocked := none, ops := ops, ticks := ticks, main := true, pending := none } =
+                    ⟨{ stack := [⟨σ.rootId, e.prog, curNow σ⟩], armed := false, blocked := none, ops := ops, ticks := ticks, main := true, pending := none },
+                     [], es, if e.root then curNow σ else σ.rootCur⟩ := by
+                  simp [stepG, advance, hl, hx, hF.entry, newId]
+                rw [key]
+                refine ⟨deadG_unarmed ?_ (fun pd' h => by cases h) rfl rfl, rfl, by simp [pot, tpot], by simp, (fun h => by rw [hl] at h; cases h), ?_, ?_⟩
+                · intro x hx'
+                  simp only [List.mem_cons, List.not_mem_nil, or_false] at hx'
+                  subst hx'
+                  exact hroot
+                · simp [G.weight, sumWeights, hl] <;> omega
+                · intro _; simp [G.weight, sumWeights, hl] <;> omega
+        | cons fr rest =>
+          obtain ⟨fid, pc, fcur⟩ := fr
+          have hfid : fid < σ.id := hst ⟨fid, pc, fcur⟩ (by simp)
+          have hrest : ∀ x ∈ rest, x.id < σ.id := fun x hx => hst x (by simp [hx])
+          have hg := guard_stale hF hfid
+          have key : stepG F σ { stack := ⟨fid, pc, fcur⟩ :: rest, armed := false, blocked := none, ops := ops, ticks := ticks, main := main, pending := none } =
+              ⟨{ stack := rest, armed := false, blocked := none, ops := ops, ticks := ticks, main := main, pending := none }, [], σ.runList, σ.rootCur⟩ := by
+            cases pc <;> simp [stepG, advance, hg]
+          rw [key]
+          refine ⟨deadG_unarmed hrest (fun pd' h => by cases h) rfl rfl, rfl, by simp [pot, tpot], by simp, fun h => h, ?_, ?_⟩
+          · simp [G.weight, sumWeights] <;> omega
+          · intro _; simp [G.weight, sumWeights] <;> omega
+
+/-- a goroutine that has nothing left to do, with an empty run list, does nothing -/
+theorem stepG_finished (F : RunIdFacts) (σ : St) (g : G) (hf : finished g = true) (hl : σ.runList = []) :
+    (stepG F σ g).g = g ∧ (stepG F σ g).spawned = [] ∧ (stepG F σ g).list = [] := by
+  obtain ⟨stack, armed, blocked, ops, ticks, main, pending⟩ := g
+  simp only [finished, Bool.and_eq_true, List.isEmpty_iff, Bool.not_eq_true', Option.isNone_iff_eq_none] at hf
+  obtain ⟨⟨⟨h1, h2⟩, h3⟩, h4⟩ := hf
+  subst h1 h2 h3 h4
+  cases main <;> simp [stepG, advance, hl]
 
 /-! ### the whole state -/
 
 /-- the state after a cancellation inside the domain: `done` is closed, every frame is stale, every blocking
-    operation races `done`, and `Execute` will not start another entry -/
+    operation races `done`, and the root frame is stale until `Execute` has returned -/
 structure Dead (F : RunIdFacts) (σ : St) : Prop where
   done : σ.done = true
-  list : σ.runList = [] ∨ F.execChecksCancel = true
+  mainOk : MainOk σ
   gs : ∀ g ∈ σ.gs, DeadG F σ.id g
+  root : σ.rootId < σ.id ∨ (σ.runList = [] ∧ ∀ g, σ.gs[0]? = some g → finished g = true)
 
 def potAt (σ : St) (i : Nat) : Nat := match σ.gs[i]? with | some g => pot g | none => 0
 def tpotAt (σ : St) (i : Nat) : Nat := match σ.gs[i]? with | some g => tpot g | none => 0
@@ -201,60 +292,117 @@ theorem sumWeights_set (l : List G) (i : Nat) (g g' : G) (h : l[i]? = some g) :
       have := ih n h
       simp [sumWeights]; omega
 
-theorem markReturn_gs (m f : Bool) (σ : St) : (markReturn m f σ).gs = σ.gs ∧ (markReturn m f σ).id = σ.id ∧
-    (markReturn m f σ).done = σ.done ∧ (markReturn m f σ).runList = σ.runList := by
-  unfold markReturn; split <;> simp
+/-- the hypothesis `stepG_dead` needs about the goroutine of `Execute`, from the state invariant -/
+theorem dead_hmain {F : RunIdFacts} {σ : St} (h : Dead F σ) {i : Nat} {g : G} (hg : σ.gs[i]? = some g) :
+    g.main = true → σ.rootId < σ.id ∨ (σ.runList = [] ∧ finished g = true) := by
+  intro hm
+  have hi : i = 0 := h.mainOk.main0 i g hg hm
+  subst hi
+  rcases h.root with hr | hr
+  · exact Or.inl hr
+  · exact Or.inr ⟨hr.1, hr.2 g hg⟩
 
 theorem dead_stepRun {F : RunIdFacts} (hF : Sound F) (σ : St) (i : Nat) (h : Dead F σ) : Dead F (stepRun F σ i) := by
+  have hmo := mainOk_step F σ (.run i) h.mainOk
+  change MainOk (stepRun F σ i) at hmo
+  revert hmo
   unfold stepRun
   cases hg : σ.gs[i]? with
-  | none => exact h
+  | none => intro _; exact h
   | some g =>
-    have hd := stepG_dead hF σ g h.done h.list (h.gs g (List.mem_of_getElem? hg))
-    obtain ⟨m1, m2, m3, m4⟩ := markReturn_gs g.main (finished (stepG F σ g).1 && (stepG F σ g).2.2.isEmpty)
-      { σ with gs := σ.gs.set i (stepG F σ g).1 ++ (stepG F σ g).2.1, runList := (stepG F σ g).2.2 }
-    refine ⟨by rw [m3]; exact h.done, ?_, ?_⟩
-    · rw [m4]
-      rcases hd.2.2.2.2.1 with h1 | h1
-      · exact Or.inl h1
-      · show (stepG F σ g).2.2 = [] ∨ _
-        rw [h1]; exact h.list
+    intro hmo
+    have hd := stepG_dead hF σ g h.done (dead_hmain h hg) (h.gs g (List.mem_of_getElem? hg))
+    have hi : i < σ.gs.length := (List.getElem?_eq_some_iff.mp hg).1
+    obtain ⟨m1, m2, m3, m4, _, _⟩ := execReturn_fields F g.main (finished (stepG F σ g).g && (stepG F σ g).list.isEmpty)
+      { σ with gs := σ.gs.set i (stepG F σ g).g ++ (stepG F σ g).spawned, runList := (stepG F σ g).list, rootCur := (stepG F σ g).rootCur }
+    refine ⟨by rw [m3]; exact h.done, hmo, ?_, ?_⟩
     · rw [m1, m2]
       intro x hx
       rcases mem_set_append hx with hx | hx | hx
       · exact h.gs x hx
-      · subst hx; exact hd.1
-      · exact (hd.2.2.2.1 x hx).1
+      · subst hx; exact hd.dead
+      · exact (hd.spawned x hx).1
+    · rw [m1, m2, m4]
+      -- the first goroutine afterwards
+      have h0 : ∀ x, (σ.gs.set i (stepG F σ g).g ++ (stepG F σ g).spawned)[0]? = some x →
+          (i = 0 ∧ x = (stepG F σ g).g) ∨ (i ≠ 0 ∧ σ.gs[0]? = some x) := by
+        intro x hx
+        have hpos : 0 < σ.gs.length := by omega
+        rw [List.getElem?_append_left (by simpa using hpos)] at hx
+        by_cases hi0 : i = 0
+        · subst hi0
+          simp [hpos] at hx
+          exact Or.inl ⟨rfl, hx.symm⟩
+        · rw [List.getElem?_set_ne hi0] at hx
+          exact Or.inr ⟨hi0, hx⟩
+      rcases h.root with hr | hr
+      · -- the root id is stale before: it stays so unless `Execute` returns now
+        rcases execReturn_root F g.main (finished (stepG F σ g).g && (stepG F σ g).list.isEmpty)
+          { σ with gs := σ.gs.set i (stepG F σ g).g ++ (stepG F σ g).spawned, runList := (stepG F σ g).list, rootCur := (stepG F σ g).rootCur } with he | he
+        · exact Or.inl (by rw [he]; exact hr)
+        · have hfire := he.1
+          simp only [Bool.and_eq_true, List.isEmpty_iff] at hfire
+          obtain ⟨hm, hfin, hlist⟩ := hfire
+          have hi0 : i = 0 := h.mainOk.main0 i g hg hm
+          refine Or.inr ⟨hlist, ?_⟩
+          intro x hx
+          rcases h0 x hx with ⟨_, rfl⟩ | ⟨hne, _⟩
+          · exact hfin
+          · exact absurd hi0 hne
+      · -- `Execute` has returned: nothing moves at the first goroutine any more
+        refine Or.inr ⟨hd.list hr.1, ?_⟩
+        intro x hx
+        rcases h0 x hx with ⟨hi0, rfl⟩ | ⟨_, hx0⟩
+        · subst hi0
+          have := stepG_finished F σ g (hr.2 g hg) hr.1
+          rw [this.1]; exact hr.2 g hg
+        · exact hr.2 x hx0
 
 theorem dead_stepComm {F : RunIdFacts} (σ : St) (i : Nat) (h : Dead F σ) : Dead F (stepComm σ i) := by
+  have hmo := mainOk_step F σ (.comm i) h.mainOk
+  change MainOk (stepComm σ i) at hmo
+  revert hmo
   unfold stepComm
   split
-  · exact h
+  · intro _; exact h
   · rename_i g hg
     split
-    · exact h
-    · refine ⟨h.done, h.list, ?_⟩
-      intro x hx
-      rcases List.mem_or_eq_of_mem_set hx with hx | hx
-      · exact h.gs x hx
-      · subst hx
-        have hd := h.gs g (List.mem_of_getElem? hg)
-        refine ⟨hd.stale, ?_, by simp⟩
-        have := hd.canc
-        simp only [G.canc, Bool.and_eq_true] at this ⊢
-        exact ⟨this.1, trivial⟩
+    · intro _; exact h
+    · rename_i v hb
+      intro hmo
+      have hi : i < σ.gs.length := (List.getElem?_eq_some_iff.mp hg).1
+      refine ⟨h.done, hmo, ?_, ?_⟩
+      · intro x hx
+        rcases List.mem_or_eq_of_mem_set hx with hx | hx
+        · exact h.gs x hx
+        · subst hx
+          have hd := h.gs g (List.mem_of_getElem? hg)
+          have ha : g.armed = false := hd.wf (by rw [hb]; rfl)
+          exact deadG_unarmed hd.stale hd.pend rfl ha
+      · rcases h.root with hr | hr
+        · exact Or.inl hr
+        · refine Or.inr ⟨hr.1, ?_⟩
+          intro x hx
+          by_cases hi0 : i = 0
+          · subst hi0
+            have := hr.2 g hg
+            simp [finished, hb] at this
+          · simp only [] at hx
+            rw [List.getElem?_set_ne hi0] at hx
+            exact hr.2 x hx
 
 theorem dead_stepStop {F : RunIdFacts} (σ : St) (h : Dead F σ) : Dead F (stepStop F σ) := by
   unfold stepStop
   split
-  · refine ⟨by simp [h.done], h.list, ?_⟩
-    intro g hg
-    have hd := h.gs g hg
-    refine ⟨?_, hd.canc, hd.wf⟩
-    intro fr hfr
-    have := hd.stale fr hfr
-    show fr.id < (if (F.watcherStops && F.stopBumps) = true then σ.id + 1 else σ.id)
-    split <;> omega
+  · have hle : σ.id ≤ (if (F.watcherStops && F.stopBumps) = true then σ.id + 1 else σ.id) := by split <;> omega
+    refine ⟨by simp [h.done], ⟨h.mainOk.main0, h.mainOk.has⟩, ?_, ?_⟩
+    · intro g hg
+      have hd := h.gs g hg
+      exact ⟨fun fr hfr => Nat.lt_of_lt_of_le (hd.stale fr hfr) hle,
+        fun pd hpd => ⟨(hd.pend pd hpd).1, Nat.lt_of_lt_of_le (hd.pend pd hpd).2 hle⟩, hd.rel, hd.wf, hd.arm⟩
+    · rcases h.root with hr | hr
+      · exact Or.inl (Nat.lt_of_lt_of_le hr hle)
+      · exact Or.inr hr
   · exact h
 
 theorem dead_step {F : RunIdFacts} (hF : Sound F) (σ : St) (c : Choice) (h : Dead F σ) : Dead F (stepC F σ c) := by
@@ -269,19 +417,27 @@ theorem dead_runSched {F : RunIdFacts} (hF : Sound F) (cs : List Choice) (σ : S
   | nil => exact h
   | cons c cs ih => exact ih _ (dead_step hF σ c h)
 
+/-- the goroutines after one `run` transition -/
+theorem stepRun_gs (F : RunIdFacts) (σ : St) (i : Nat) (g : G) (hg : σ.gs[i]? = some g) :
+    (stepRun F σ i).gs = σ.gs.set i (stepG F σ g).g ++ (stepG F σ g).spawned ∧
+    (stepRun F σ i).runList = (stepG F σ g).list := by
+  unfold stepRun
+  simp only [hg]
+  have := execReturn_fields F g.main (finished (stepG F σ g).g && (stepG F σ g).list.isEmpty)
+    { σ with gs := σ.gs.set i (stepG F σ g).g ++ (stepG F σ g).spawned, runList := (stepG F σ g).list, rootCur := (stepG F σ g).rootCur }
+  exact ⟨this.1, this.2.2.2.1⟩
+
 /-- in a dead state no transition increases "operations executed + operation in flight" of any goroutine -/
 theorem potAt_step {F : RunIdFacts} (hF : Sound F) (σ : St) (c : Choice) (h : Dead F σ) (j : Nat) :
     potAt (stepC F σ c) j ≤ potAt σ j := by
   cases c with
   | run i =>
     show potAt (stepRun F σ i) j ≤ potAt σ j
-    unfold stepRun
     cases hg : σ.gs[i]? with
-    | none => exact Nat.le_refl _
+    | none => simp [stepRun, hg]
     | some g =>
-      have hd := stepG_dead hF σ g h.done h.list (h.gs g (List.mem_of_getElem? hg))
-      have m1 := (markReturn_gs g.main (finished (stepG F σ g).1 && (stepG F σ g).2.2.isEmpty)
-        { σ with gs := σ.gs.set i (stepG F σ g).1 ++ (stepG F σ g).2.1, runList := (stepG F σ g).2.2 }).1
+      have hd := stepG_dead hF σ g h.done (dead_hmain h hg) (h.gs g (List.mem_of_getElem? hg))
+      have m1 := (stepRun_gs F σ i g hg).1
       simp only [potAt, m1]
       have hi : i < σ.gs.length := (List.getElem?_eq_some_iff.mp hg).1
       by_cases hj : j < σ.gs.length
@@ -290,16 +446,16 @@ theorem potAt_step {F : RunIdFacts} (hF : Sound F) (σ : St) (c : Choice) (h : D
         · subst hij
           have heq : σ.gs[i] = g := (List.getElem?_eq_some_iff.mp hg).2
           simp [hi, heq]
-          exact hd.2.2.1.1
+          exact hd.pot.1
         · simp [hij]
       · have hj' : σ.gs.length ≤ j := Nat.le_of_not_lt hj
         rw [List.getElem?_append_right (by simpa using hj')]
         have hnone : σ.gs[j]? = none := List.getElem?_eq_none hj'
         rw [hnone]
-        cases hs : (stepG F σ g).2.1[j - (σ.gs.set i (stepG F σ g).1).length]? with
+        cases hs : (stepG F σ g).spawned[j - (σ.gs.set i (stepG F σ g).g).length]? with
         | none => simp
         | some s =>
-          have := (hd.2.2.2.1 s (List.mem_of_getElem? hs)).2.1
+          have := (hd.spawned s (List.mem_of_getElem? hs)).2.1
           simp [this]
   | comm i =>
     show potAt (stepComm σ i) j ≤ potAt σ j
@@ -333,13 +489,11 @@ theorem tpotAt_step {F : RunIdFacts} (hF : Sound F) (σ : St) (c : Choice) (h : 
   cases c with
   | run i =>
     show tpotAt (stepRun F σ i) j ≤ tpotAt σ j
-    unfold stepRun
     cases hg : σ.gs[i]? with
-    | none => exact Nat.le_refl _
+    | none => simp [stepRun, hg]
     | some g =>
-      have hd := stepG_dead hF σ g h.done h.list (h.gs g (List.mem_of_getElem? hg))
-      have m1 := (markReturn_gs g.main (finished (stepG F σ g).1 && (stepG F σ g).2.2.isEmpty)
-        { σ with gs := σ.gs.set i (stepG F σ g).1 ++ (stepG F σ g).2.1, runList := (stepG F σ g).2.2 }).1
+      have hd := stepG_dead hF σ g h.done (dead_hmain h hg) (h.gs g (List.mem_of_getElem? hg))
+      have m1 := (stepRun_gs F σ i g hg).1
       simp only [tpotAt, m1]
       have hi : i < σ.gs.length := (List.getElem?_eq_some_iff.mp hg).1
       by_cases hj : j < σ.gs.length
@@ -348,16 +502,16 @@ theorem tpotAt_step {F : RunIdFacts} (hF : Sound F) (σ : St) (c : Choice) (h : 
         · subst hij
           have heq : σ.gs[i] = g := (List.getElem?_eq_some_iff.mp hg).2
           simp [hi, heq]
-          exact hd.2.2.1.2
+          exact hd.pot.2
         · simp [hij]
       · have hj' : σ.gs.length ≤ j := Nat.le_of_not_lt hj
         rw [List.getElem?_append_right (by simpa using hj')]
         have hnone : σ.gs[j]? = none := List.getElem?_eq_none hj'
         rw [hnone]
-        cases hs : (stepG F σ g).2.1[j - (σ.gs.set i (stepG F σ g).1).length]? with
+        cases hs : (stepG F σ g).spawned[j - (σ.gs.set i (stepG F σ g).g).length]? with
         | none => simp
         | some s =>
-          have := (hd.2.2.2.1 s (List.mem_of_getElem? hs)).2.2
+          have := (hd.spawned s (List.mem_of_getElem? hs)).2.2
           simp [this]
   | comm i =>
     show tpotAt (stepComm σ i) j ≤ tpotAt σ j
@@ -388,53 +542,79 @@ theorem tpotAt_runSched {F : RunIdFacts} (hF : Sound F) (cs : List Choice) (σ :
 /-! ### termination -/
 
 theorem weight_stepRun {F : RunIdFacts} (hF : Sound F) (σ : St) (i : Nat) (g : G) (h : Dead F σ) (hg : σ.gs[i]? = some g) :
-    (stepRun F σ i).weight ≤ σ.weight ∧ (0 < g.weight → (stepRun F σ i).weight < σ.weight) := by
-  have hd := stepG_dead hF σ g h.done h.list (h.gs g (List.mem_of_getElem? hg))
-  have m1 := (markReturn_gs g.main (finished (stepG F σ g).1 && (stepG F σ g).2.2.isEmpty)
-    { σ with gs := σ.gs.set i (stepG F σ g).1 ++ (stepG F σ g).2.1, runList := (stepG F σ g).2.2 }).1
-  have hs := sumWeights_set σ.gs i g (stepG F σ g).1 hg
-  have e : (stepRun F σ i).weight = sumWeights (σ.gs.set i (stepG F σ g).1) + sumWeights (stepG F σ g).2.1 := by
-    unfold stepRun; simp only [hg, St.weight, m1]; exact sumWeights_append _ _
-  have h6 := hd.2.2.2.2.2.1
-  have h7 := hd.2.2.2.2.2.2
+    (stepRun F σ i).weight ≤ σ.weight ∧ (g.active (!σ.runList.isEmpty) = true → (stepRun F σ i).weight < σ.weight) := by
+  have hd := stepG_dead hF σ g h.done (dead_hmain h hg) (h.gs g (List.mem_of_getElem? hg))
+  obtain ⟨m1, m2⟩ := stepRun_gs F σ i g hg
+  have hs := sumWeights_set σ.gs i g (stepG F σ g).g hg
+  have e : (stepRun F σ i).weight =
+      sumWeights (σ.gs.set i (stepG F σ g).g) + sumWeights (stepG F σ g).spawned + 2 * (stepG F σ g).list.length := by
+    simp only [St.weight, m1, m2, sumWeights_append]
+  have h6 := hd.wle
+  have h7 := hd.wlt
   refine ⟨?_, fun hpos => ?_⟩
   · rw [e]; simp only [St.weight]; omega
   · have := h7 hpos
     rw [e]; simp only [St.weight]; omega
 
-theorem firstActive_spec (gs : List G) (k : Nat) :
-    (firstActive gs k = none → sumWeights gs = 0) ∧
-    (∀ i, firstActive gs k = some i → k ≤ i ∧ ∃ g, gs[i - k]? = some g ∧ 0 < g.weight) := by
+theorem firstActive_spec (more : Bool) (gs : List G) (k : Nat) :
+    (firstActive more gs k = none → ∀ g ∈ gs, g.active more = false) ∧
+    (∀ i, firstActive more gs k = some i → k ≤ i ∧ ∃ g, gs[i - k]? = some g ∧ g.active more = true) := by
   induction gs generalizing k with
-  | nil => simp [firstActive, sumWeights]
+  | nil => simp [firstActive]
   | cons g rest ih =>
-    by_cases hw : g.weight > 0
+    by_cases hw : g.active more = true
     · simp [firstActive, hw]
-    · have h0 : g.weight = 0 := by omega
+    · have h0 : g.active more = false := by simpa using hw
       have := ih (k + 1)
       refine ⟨?_, ?_⟩
       · intro hn
-        simp [firstActive, hw] at hn
-        simp [sumWeights, h0, this.1 hn]
+        simp [firstActive, h0] at hn
+        intro x hx
+        simp only [List.mem_cons] at hx
+        rcases hx with rfl | hx
+        · exact h0
+        · exact this.1 hn x hx
       · intro i hi
-        simp [firstActive, hw] at hi
+        simp [firstActive, h0] at hi
         obtain ⟨hle, g', hg', hpos⟩ := this.2 i hi
         refine ⟨by omega, g', ?_, hpos⟩
         have : i - k = (i - (k + 1)) + 1 := by omega
         rw [this]; simpa using hg'
 
+theorem sumWeights_zero (gs : List G) (h : ∀ g ∈ gs, g.weight = 0) : sumWeights gs = 0 := by
+  induction gs with
+  | nil => rfl
+  | cons x xs ih =>
+    simp only [sumWeights]
+    have := h x (by simp)
+    have := ih (fun g hg => h g (by simp [hg]))
+    omega
+
 /-- **Everything terminates**: from a dead state, running the goroutines that can still move reaches, within
-    `weight` transitions, a state in which every goroutine has an empty stack, is not armed and not blocked. -/
+    `weight` transitions, a state in which `Execute` has walked its whole run list and every goroutine has an
+    empty stack, is not armed and not blocked. -/
 theorem drain_terminates {F : RunIdFacts} (hF : Sound F) (fuel : Nat) (σ : St) (h : Dead F σ) (hw : σ.weight ≤ fuel) :
     (drain F σ fuel).weight = 0 ∧ Dead F (drain F σ fuel) := by
   induction fuel generalizing σ with
   | zero => exact ⟨by simp only [drain]; omega, h⟩
   | succ n ih =>
     simp only [drain]
-    cases hf : firstActive σ.gs 0 with
-    | none => exact ⟨(firstActive_spec σ.gs 0).1 hf, h⟩
+    cases hf : firstActive (!σ.runList.isEmpty) σ.gs 0 with
+    | none =>
+      refine ⟨?_, h⟩
+      have hall := (firstActive_spec _ σ.gs 0).1 hf
+      have hz : ∀ g ∈ σ.gs, g.weight = 0 := by
+        intro g hg
+        have := hall g hg
+        simp only [G.active, Bool.or_eq_false_iff, decide_eq_false_iff_not] at this
+        omega
+      obtain ⟨m, hm0, hmm⟩ := h.mainOk.has
+      have hml := hall m (List.mem_of_getElem? hm0)
+      simp only [G.active, hmm, Bool.true_and, Bool.or_eq_false_iff, Bool.not_eq_false'] at hml
+      have hl : σ.runList = [] := by simpa using hml.2
+      simp [St.weight, sumWeights_zero σ.gs hz, hl]
     | some i =>
-      obtain ⟨_, g, hg, hpos⟩ := (firstActive_spec σ.gs 0).2 i hf
+      obtain ⟨_, g, hg, hpos⟩ := (firstActive_spec _ σ.gs 0).2 i hf
       simp only [Nat.sub_zero] at hg
       have hlt := (weight_stepRun hF σ i g h hg).2 hpos
       exact ih (stepC F σ (.run i)) (dead_step hF σ (.run i) h) (by show (stepRun F σ i).weight ≤ n; omega)
